@@ -67,6 +67,9 @@ mod watchdog {
 }
 
 pub fn decode_case(bytes: &[u8], out: &mut Out) {
+    if out.count % 3 == 0 {
+        reencode_case(bytes, out);
+    }
     let res = match watchdog::decode(bytes) {
         watchdog::Outcome::Done(Ok(m)) => format!("ok {}", c::message(&m)),
         watchdog::Outcome::Done(Err(e)) => format!("err {e:?}"),
@@ -218,6 +221,29 @@ fn adversarial(r: &mut Rng, out: &mut Out) {
     }
 }
 
+/// decode → encode → decode: must give the first decoded message again (C04 "re-encoding any
+/// successfully decoded message decodes to that message again")
+pub fn reencode_case(bytes: &[u8], out: &mut Out) {
+    let b = bytes.to_vec();
+    let text = crate::watch::text(10, move || match Message::from_octets(&b) {
+        Err(_) => "undecodable".to_string(),
+        Ok(m1) => match m1.to_octets() {
+            Err(_) => "reencode-failed".to_string(),
+            Ok(b2) => match Message::from_octets(&b2) {
+                Err(e) => format!("redecode-failed {e:?}"),
+                Ok(m2) => {
+                    if m1 == m2 {
+                        "same".to_string()
+                    } else {
+                        "differs".to_string()
+                    }
+                }
+            },
+        },
+    });
+    out.case(&["reencode", &c::hex(bytes)], &text);
+}
+
 pub fn run_decode(r: &mut Rng, n: usize, out: &mut Out) {
     for len in 0..=13usize {
         decode_case(&r.bytes(len), out);
@@ -320,6 +346,38 @@ pub fn run_encode(r: &mut Rng, n: usize, big: usize, out: &mut Out) {
     }
     for _ in 0..n {
         let m = gen::message(r, 6, 60);
+        if let Some(bs) = encode_case(&m, out) {
+            decode_case(&bs, out);
+        }
+    }
+    // a name first written at every offset around the 14-bit pointer limit, then repeated
+    for target in 16370usize..=16400 {
+        let pool = gen::Pool::new(r, 2);
+        let nm = loop {
+            let n = pool.name(r);
+            if !n.is_root() {
+                break n;
+            }
+        };
+        let pad = target - 23; // header 12 + root owner 1 + type/class/ttl/rdlength 10
+        let mut m = gen::message(r, 0, 0);
+        m.questions.clear();
+        m.answers = vec![ResourceRecord {
+            name: DomainName::root_domain(),
+            rtype_with_data: RecordTypeWithData::NULL { octets: bytes::Bytes::from(vec![5u8; pad]) },
+            rclass: RecordClass::IN,
+            ttl: 1,
+        }];
+        for _ in 0..3 {
+            m.answers.push(ResourceRecord {
+                name: nm.clone(),
+                rtype_with_data: RecordTypeWithData::NS { nsdname: nm.clone() },
+                rclass: RecordClass::IN,
+                ttl: 2,
+            });
+        }
+        m.authority.clear();
+        m.additional.clear();
         if let Some(bs) = encode_case(&m, out) {
             decode_case(&bs, out);
         }
